@@ -47,6 +47,10 @@ def run(ctx, R, tier):
         ok = rcfg.guarded(n, lambda e: edge_has_fact(e, complete))
         R.check(ok, "C17-R1", "receive_data|return:%s" % var, "returned only on the edge where len(%s) == %s" % (var, sizep), rx.loc(n.ast),
                 "`%s` can be returned although its length was not established to equal the requested size (short or surplus data)" % var)
+    retn = [n for n in rcfg.nodes if n.kind == "stmt" and isinstance(n.ast, ast.Return) and n.ast.value is not None]
+    ok = rcfg.all_paths_pass([rcfg.entry], lambda n: n in retn, targets=[rcfg.exit])
+    R.check(ok, "C17-R1", "receive_data|no-fall-through", "the function ends only by returning a checked buffer or by raising (it cannot run off its end and return None)", rx.loc(),
+            "some path leaves receive_data without a return statement: the caller gets None instead of the requested bytes")
     recvs = [c for c, _ in ctx.cg.calls_of(rx) if isinstance(c.func, ast.Attribute) and c.func.attr == "recv"]
     loop_recvs = [c for c in recvs if any(isinstance(l, ast.While) and isinstance(l.test, ast.Compare) for l in enclosing_loops(c, rx.node))]
     if len(loop_recvs) != 1:
@@ -157,6 +161,25 @@ def run(ctx, R, tier):
         ok = same_block and isinstance(as_.value, ast.Call) and unparse(as_.value.func) == "len" and unparse(as_.value.args[0]) == chunk and isinstance(as_.op, ast.Add)
         why = "the buffer grows by `%s` but the counter by `%s` (or in different branches)" % (chunk, unparse(as_.value))
     R.check(ok, "C17-R3", "receive_data|accumulate-and-advance", "the chunk is appended and counted in the same block", rx.loc(inner), why)
+    # hand-over from the MSG_WAITALL attempt: a short first read is appended and counted before the manual loop continues
+    fast = [c for c in recvs if c is not lr]
+    if fast:
+        fnodes = [x for c in fast for x in ctx.node_of(rx, c)]
+        lnodes = ctx.node_of(rx, lr)
+        bufname = sorted(bufs)[0] if bufs else None
+        ext_f = [x for c, _ in ctx.cg.calls_of(rx) if isinstance(c.func, ast.Attribute) and c.func.attr == "extend" and unparse(c.func.value) == bufname
+                 and inner not in enclosing_loops(c, rx.node) for x in ctx.node_of(rx, c)]
+        cnt_f = [x for st, t, k in stores_in(rx.node) if k == "assign" and unparse(t) == counter and isinstance(st.value, ast.Call) and unparse(st.value.func) == "len"
+                 and inner not in enclosing_loops(st, rx.node) for x in rcfg.nodes_for(st)]
+        noexc = lambda e: e.kind != "exc"
+        ok_e = bool(ext_f) and rcfg.all_paths_pass(fnodes, lambda n: n in ext_f or n in fnodes, edge_ok=noexc, targets=lnodes)
+        ok_c = bool(cnt_f) and rcfg.all_paths_pass(fnodes, lambda n: n in cnt_f or n in fnodes, edge_ok=noexc, targets=lnodes)
+        R.check(ok_e and ok_c, "C17-R3", "receive_data|short-first-read-handed-over", "a short MSG_WAITALL read is appended to the buffer and counted before the manual loop takes over",
+                rx.loc(fast[0]), "the manual loop can be reached from the MSG_WAITALL attempt without %s: the bytes of a short first read are lost or counted wrongly" % (
+                    "appending the chunk" if not ok_e else "setting the counter to its length"))
+        again = rcfg.path_exists(fnodes, lambda n: n in fnodes, edge_ok=noexc)
+        R.check(not again, "C17-R1", "receive_data|waitall-read-not-repeated", "after the MSG_WAITALL read returned data, that read is not issued again (it asks for the full size)",
+                rx.loc(fast[0]), "after a short MSG_WAITALL read the loop issues the full-size read again: the second read takes bytes of the next message")
     chunkvar = unparse(ext[0].args[0]) if ext and ext[0].args else None
 
     def empty_chunk(atom, pol):
